@@ -165,7 +165,7 @@ def validate_trace(workdir, trace_module, trace_file, deviations=(), timeout=180
         base = re.sub(r"Deviations\s*=\s*\{[^}]*\}", "Deviations = " + devs, base)
     with open(os.path.join(workdir, cfgname), "w") as f:
         f.write(base + "\n" + extra_constants)
-    r = tlc(workdir, trace_module, cfgname, workers=1, timeout=timeout, java_opts="-Xss64m")
+    r = tlc(workdir, trace_module, cfgname, workers=1, timeout=timeout, java_opts="-Xss512m")
     m = re.search(r'"TRACE_REJECTED_AT_LINE", (\d+)', r.out)
     used = []
     m2 = re.search(r'"DEVIATIONS_USED", \{([^}]*)\}', r.out)
